@@ -18,7 +18,7 @@ pub fn forty_two() -> u32 { 42 }
 #[macro_export]
 macro_rules! nothing { ($($t:tt)*) => {}; }
 """
-TVIS = ["", "pub ", "pub(crate) "]
+TVIS = ["", "pub ", "pub(crate) ", "pub(in crate::cases) "]
 
 
 def item_text(c, k):
@@ -27,7 +27,7 @@ def item_text(c, k):
 
 def render(c):
     n = int(c["case"])
-    tvis = TVIS[n % 3]
+    tvis = TVIS[n % 4]
     items = "\n    ".join(item_text(c, k) for k in range(len(c["body"])))
     calls = []
     for idx in c["truth"]:
